@@ -106,6 +106,8 @@ class Tr:
             raise Unsupported('unknown name %s' % e.id)
         if isinstance(e, ast.Attribute):
             path = ast.unparse(e)
+            if path in sp.get('state_fields', {}):
+                return k(*env[sp['state_fields'][path][0]])
             if ('$field', path) in env:
                 return k(*env[('$field', path)])
             if path in sp.get('fields', {}):
@@ -200,7 +202,9 @@ class Tr:
         if name == 'timedelta':
             if len(e.keywords) == 1 and not e.args and e.keywords[0].arg == 'days':
                 return self.expr(e.keywords[0].value, env, lambda d, td: k('(%s * DAY)' % self.coerce(d, td, 'Z'), 'Z'))
-            raise Unsupported('timedelta(...) other than days=')
+            if len(e.keywords) == 1 and not e.args and e.keywords[0].arg == 'hours' and 'hours_us' in self.ops:
+                return self.expr(e.keywords[0].value, env, lambda h, th: k('(%s %s)' % (self.ops['hours_us'], self.coerce(h, th, 'num')), 'Z'))
+            raise Unsupported('timedelta(...) other than days= / hours=')
         if name in ('min', 'max') and len(e.args) == 2 and not e.keywords:
             f = self.ops[name]
             return self.expr(e.args[0], env, lambda a, ta: self.expr(e.args[1], env, lambda b, tb: k(
@@ -218,6 +222,8 @@ class Tr:
         if target is None:
             raise Unsupported('call of %s' % name)
         kind = target[0]
+        if kind == 'custom':
+            return target[1](self, e, env, k)
         if kind == 'apply_recv':
             # receiver is a function value; python args at the given indices are passed
             _, idx = target
@@ -403,10 +409,20 @@ class Tr:
         raise Unsupported('membership in a %s' % ty_str(td))
 
     # ---- statements ---------------------------------------------------------------------------------
+    def mutator_of(self, node):
+        """(state variable, translated function, indices of the python args) when `node` is a call that changes a state
+        object of the spec (`mutators`: {'obj.method': (state name, coq function, arg types)})"""
+        if isinstance(node, ast.Call):
+            return self.spec.get('mutators', {}).get(ast.unparse(node.func))
+        return None
+
     def assigned(self, stmts):
         names = []
         for s in stmts:
             for n in ast.walk(s):
+                m = self.mutator_of(n)
+                if m is not None and m[0] not in names:
+                    names.append(m[0])
                 if isinstance(n, (ast.Assign, ast.AugAssign, ast.AnnAssign)):
                     ts = n.targets if isinstance(n, ast.Assign) else [n.target]
                     for t in ts:
@@ -434,9 +450,14 @@ class Tr:
         if isinstance(s, ast.Pass):
             return nxt(env)
         if isinstance(s, ast.Return):
+            st = self.spec.get('state')
+
+            def result(a, ta):
+                v = self.coerce(a, ta, self.ret, 'as the result')
+                return 'Ok (%s, %s)' % (env[st][0], v) if st else 'Ok %s' % v
             if s.value is None:
-                return 'Ok %s' % self.coerce('None', 'none', self.ret, 'as the result')
-            return self.expr(s.value, env, lambda a, ta: 'Ok %s' % self.coerce(a, ta, self.ret, 'as the result'))
+                return result('None', 'none')
+            return self.expr(s.value, env, result)
         if isinstance(s, ast.Raise):
             exc = s.exc
             name = exc.func.id if isinstance(exc, ast.Call) and isinstance(exc.func, ast.Name) else \
@@ -450,6 +471,49 @@ class Tr:
             if loop is None:
                 raise Unsupported('continue outside a loop')
             return loop(env)
+        # a call that changes a state object: allowed as a statement, as the whole right-hand side of an assignment or
+        # of an augmented assignment (anywhere else the evaluation order would have to be modelled: unsupported)
+        val = s.value if isinstance(s, (ast.Assign, ast.AugAssign, ast.Expr, ast.AnnAssign)) else None
+        mut = self.mutator_of(val) if val is not None else None
+        if mut is None and any(self.mutator_of(n) is not None for n in ast.walk(s)) and not isinstance(s, (ast.If, ast.For, ast.While)):
+            raise Unsupported('a state-changing call inside a larger expression: %s' % ast.unparse(s))
+        if mut is not None:
+            state, fn, argtypes, rt = mut
+
+            def after_call(atoms):
+                st2, v = self.fresh(state), self.fresh('r')
+                env2 = dict(env)
+                env2[state] = (st2, env[state][1])
+                if isinstance(s, ast.Expr):
+                    cont = nxt(env2)
+                elif isinstance(s, ast.AugAssign):
+                    if not isinstance(s.target, ast.Name):
+                        raise Unsupported('augmented assignment to %s' % ast.unparse(s.target))
+                    tmp = '$mut%d' % self.n
+                    env2[tmp] = (v, rt)
+                    e2 = ast.BinOp(left=ast.Name(id=s.target.id, ctx=ast.Load()), op=s.op, right=ast.Name(id=tmp, ctx=ast.Load()))
+                    cont = self.expr(e2, env2, lambda a, ta: self.bind(s.target.id, a, ta, env2, nxt))
+                else:
+                    tgt0 = s.targets[0] if isinstance(s, ast.Assign) else s.target
+                    if not isinstance(tgt0, ast.Name):
+                        raise Unsupported('assignment form %s' % ast.unparse(s))
+                    cont = self.bind(tgt0.id, v, rt, env2, nxt)
+                return "(do '(%s, %s) <- %s %s %s; %s)" % (st2, v, fn, env[state][0], ' '.join(atoms), cont)
+            return self.args(list(val.args), argtypes, env, after_call)
+        if isinstance(s, ast.Expr) and isinstance(s.value, ast.Call) and ast.unparse(s.value.func) in self.spec.get('ignored_calls', ()):
+            return nxt(env)
+        if isinstance(s, ast.Expr) and isinstance(s.value, ast.Call) and ast.unparse(s.value.func) in self.spec.get('appends', {}):
+            # self.rows.append(X): the field is a state variable of this function
+            state, elt = self.spec['appends'][ast.unparse(s.value.func)]
+            if len(s.value.args) != 1:
+                raise Unsupported('append with %d arguments' % len(s.value.args))
+
+            def appended(a, ta):
+                st2 = self.fresh(state)
+                env2 = dict(env)
+                env2[state] = (st2, env[state][1])
+                return '(let %s := (%s ++ [%s]) in %s)' % (st2, env[state][0], self.coerce(a, ta, elt), nxt(env2))
+            return self.expr(s.value.args[0], env, appended)
         if isinstance(s, (ast.Assign, ast.AnnAssign)):
             tgt = s.targets[0] if isinstance(s, ast.Assign) else s.target
             if (isinstance(s, ast.Assign) and len(s.targets) != 1) or not isinstance(tgt, ast.Name) or s.value is None:
@@ -565,7 +629,7 @@ class Tr:
 
     def emit_loop(self, name, extras, decl, sig, struct, nil, cons):
         ex = ' '.join('(%s : %s)' % (a, ty_str(t)) for a, t in extras)
-        rt = '(res %s)' % ty_str(self.ret)
+        rt = self.res_type()
         self.lifted.append('Fixpoint %s %s %s %s {struct %s} : %s :=\n  match %s with\n  | %s => %s\n  | %s => %s\n  end.\n'
                            % (name, ex, decl, sig, struct, rt, struct, nil[0], nil[1], cons[0], cons[1]))
 
@@ -599,6 +663,12 @@ class Tr:
         self.emit_loop(name, extras, '(%s : nat)' % f, sig, f, ('O', 'Crash OutOfFuel'), ('S %s' % f2, body))
         return '(%s %s %s %s)' % (name, exs, fuel_expr, pass_vars(env))
 
+    def res_type(self):
+        st = self.spec.get('state')
+        if st:
+            return '(res (%s * %s))' % (ty_str(self.state_type), ty_str(self.ret))
+        return '(res %s)' % ty_str(self.ret)
+
     # ---- a whole function -------------------------------------------------------------------------------
     def function(self, fn):
         sp = self.spec
@@ -606,6 +676,10 @@ class Tr:
         params = []
         for pname, (cname, t) in sp.get('params', {}).items():
             env[pname] = (cname, t)
+        for path, (sname, cname, t) in sp.get('state_fields', {}).items():
+            env[sname] = (cname, t)             # a field of self that this function changes
+        if sp.get('state'):
+            self.state_type = env[sp['state']][1]
         declared = [a.arg for a in fn.args.args if a.arg not in ('self', 'cls')]
         for a in declared:
             if a not in env and a not in sp.get('ignored_params', ()):
@@ -619,14 +693,15 @@ class Tr:
             params.append('(%s : %s)' % (cname, ty_str(t)))
 
         def fall(env1):
+            st = sp.get('state')
             if isinstance(self.ret, tuple) and self.ret[0] == 'option':
-                return 'Ok None'
+                return 'Ok (%s, None)' % env1[st][0] if st else 'Ok None'
             if self.ret == 'unit':
-                return 'Ok tt'
+                return 'Ok (%s, tt)' % env1[st][0] if st else 'Ok tt'
             raise Unsupported('control can fall off the end of the function')
         body = self.block(list(fn.body), env, fall)
-        return ''.join(t + '\n' for t in self.lifted) + 'Definition %s %s : res %s :=\n  %s.\n' % (
-            sp['coq_name'], ' '.join(params), ty_str(self.ret), body)
+        return ''.join(t + '\n' for t in self.lifted) + 'Definition %s %s : %s :=\n  %s.\n' % (
+            sp['coq_name'], ' '.join(params), self.res_type(), body)
 
 
 def find_function(tree, cls, func):
